@@ -638,8 +638,13 @@ def random_pd(rng, models):
         f2 = Fraction(rng.randint(int(f1 * 8) + 1, 8), 8)
         y1, y2 = f1 * b, f2 * b
     Ncte = [Fraction(0)] * 3
-    if rng.random() < 0.2:
+    if rng.random() < 0.25:
         Ncte = [Fraction(rng.randint(-8, 8), 2) for _ in range(3)]
+        if rng.random() < 0.5:                  # a single non-zero component
+            keep = rng.randrange(3)
+            Ncte = [v if k == keep else Fraction(0) for k, v in enumerate(Ncte)]
+            if not Ncte[keep]:
+                Ncte[keep] = Fraction(3, 2)
     pd = dict(model=model, a=rat(a), b=rat(b), r=rat(r), sina=rat(sina), cosa=rat(cosa), m=m, n=n,
               fl=[[[rat(v) for v in ax] for ax in row] for row in fl],
               stack=c01.enc_stack(stack), off=rat(off), y1=rat(y1), y2=rat(y2),
